@@ -71,6 +71,7 @@ func c34Gen(rng *rand.Rand, tier string) []Case {
 		}
 	}
 	rec(nil)
+	out = append(out, Case{ID: "leave-stalled", Ops: []string{"leavestall"}, Nontrivial: true, Tags: []string{"directed"}})
 	out = append(out, Case{ID: "join-during-leave", Ops: []string{"joinduringleave"}, Nontrivial: true, Tags: []string{"directed"}})
 	for i := 0; i < nConc; i++ {
 		k := 2 + rng.Intn(3)
@@ -107,6 +108,57 @@ func c34JoinDuringLeave() string {
 	res := c34Call(n, "join")
 	<-done
 	return res + " " + n.S.State().String()
+}
+
+// c34LeaveStall: a node that knows a live peer and whose gossip is stalled (nothing leaves its broadcast queue)
+// calls Leave: both the serf-level leave broadcast and memberlist's own leave time out.  Whatever Leave returns,
+// the state a polling observer sees must only move forward, and a Join issued afterwards must be refused
+// (the leave had begun before it).
+func c34LeaveStall() string {
+	peer, err := newTestNode(nil)
+	if err != nil {
+		return "node-error"
+	}
+	defer peer.Close()
+	n, err := newTestNode(func(c *serf.Config) {
+		c.MemberlistConfig.GossipInterval = time.Hour
+		c.BroadcastTimeout = 60 * time.Millisecond
+		c.LeavePropagateDelay = 20 * time.Millisecond
+	})
+	if err != nil {
+		return "node-error"
+	}
+	defer n.Close()
+	addr := fmt.Sprintf("%s/%s:%d", peer.Conf.NodeName, peer.Conf.MemberlistConfig.BindAddr, peer.Conf.MemberlistConfig.BindPort)
+	if _, err := n.S.Join([]string{addr}, false); err != nil || n.S.NumNodes() != 2 {
+		return "node-error"
+	}
+	stop := make(chan struct{})
+	var samples []string
+	var ow sync.WaitGroup
+	ow.Add(1)
+	go func() {
+		defer ow.Done()
+		last := ""
+		for {
+			st := n.S.State().String()
+			if st != last {
+				samples = append(samples, st)
+				last = st
+			}
+			select {
+			case <-stop:
+				samples = append(samples, n.S.State().String())
+				return
+			default:
+			}
+		}
+	}()
+	lr := c34Call(n, "leave")
+	jr := c34Call(n, "join")
+	close(stop)
+	ow.Wait()
+	return "obs " + strings.Join(samples, ",") + "|leave:" + lr + ",join:" + jr
 }
 
 func c34Exec(ops []string) []string {
@@ -165,6 +217,10 @@ func c34Exec(ops []string) []string {
 			outs = append(outs, "obs "+strings.Join(samples, ",")+"|"+strings.Join(results, ","))
 			continue
 		}
+		if len(f) == 1 && f[0] == "leavestall" {
+			outs = append(outs, c34LeaveStall())
+			continue
+		}
 		if len(f) == 1 && f[0] == "joinduringleave" {
 			outs = append(outs, c34JoinDuringLeave())
 			continue
@@ -181,7 +237,7 @@ func c34Exec(ops []string) []string {
 func init() {
 	register(&Prop{
 		ID: "C34",
-		Rule: "a real single Serf node per case: every sequence of ≤3 (thorough ≤4) Leave/Shutdown/Join calls with State() read after each (exhaustive), plus free-running concurrent groups of 2-4 calls with a polling State() observer; " +
+		Rule: "a real single Serf node per case: every sequence of ≤3 (thorough ≤4) Leave/Shutdown/Join calls with State() read after each (exhaustive), plus free-running concurrent groups of 2-4 calls with a polling State() observer, a Join issued while a Leave is in progress, and a Leave whose broadcasts time out (live peer, stalled gossip) followed by a Join; " +
 			"non-trivial = at least two calls; distinct = distinct op sequence",
 		Gen:  c34Gen,
 		Exec: c34Exec,
